@@ -307,9 +307,8 @@ def install(it):
         if isinstance(s, str):
             return s.encode('ascii').ljust(16, b' ')[:16]
         b = it.p.facts.enc(s)
-        t = smt.SPAD16(b)
-        it.p.facts.add(z3.Length(t) == 16)
-        it.p.facts.add(z3.Implies(z3.Length(b) == 16, z3.And(t == b, smt.PAD16(b) == b)))
+        t = it.p.facts.spad16(b)
+        # a NUL-padded field differs from the space-padded one whenever padding is needed
         it.p.facts.add(z3.Implies(z3.Length(b) < 16, t != smt.PAD16(b)))
         return t
 
